@@ -340,8 +340,8 @@ theorem C02_three_consecutive_failures (c : Comp) (h : Reachable c) (j : Jumper)
     (`started`), for a registered athlete who has not been re-instated for a jump-off, a cleared / failed / passed /
     retired call is accepted **if and only if** a bar height has been set, the card shows no retirement, fewer than
     three failures since the last clearance, and nothing but failures at the current height. -/
-theorem C02_trial_accepted_iff (c : Comp) (hr : Reachable c) (b : Nat) (t : Trial) (j : Jumper)
-    (hj : c.find b = some j) (h3 : j.roundLim = 3) (hph : c.phase = .started) :
+theorem C02_trial_accepted_iff_allowed (c : Comp) (hr : Reachable c) (b : Nat) (t : Trial) (j : Jumper)
+    (hj : c.find b = some j) (h3 : j.roundLim = 3) (hph : trialAllowed c j = true) :
     (step c (.trial b t)).2 = .ok ↔
       (c.heights ≠ [] ∧ j.card.flatten.contains .r = false ∧ trailingX j.card.flatten < 3 ∧
         allX ((padCard j.card c.heights.length).getLast?.getD []) = true) := by
@@ -377,9 +377,27 @@ theorem C02_trial_accepted_iff (c : Comp) (hr : Reachable c) (b : Nat) (t : Tria
       | true => have := hc.done h3 hdd he; rw [hopen] at this; cases this
     have hlen := open_cell_le_trailing j.card c.heights.length hf.len hopen
     have hl0 : c.heights.length ≠ 0 := fun e => hh (List.eq_nil_of_length_eq_zero e)
-    simp only [step, hj, trialAllowed, hph, Jumper.act, he, hd]
+    simp only [step, hj, hph, Jumper.act, he, hd]
     have : ¬ ((padCard j.card c.heights.length).getLast?.getD []).length + 1 > j.roundLim := by omega
     simp [hl0, this]
+
+/-- the same while the competition is in progress (`started`): the state test is then always passed -/
+theorem C02_trial_accepted_iff (c : Comp) (hr : Reachable c) (b : Nat) (t : Trial) (j : Jumper)
+    (hj : c.find b = some j) (h3 : j.roundLim = 3) (hph : c.phase = .started) :
+    (step c (.trial b t)).2 = .ok ↔
+      (c.heights ≠ [] ∧ j.card.flatten.contains .r = false ∧ trailingX j.card.flatten < 3 ∧
+        allX ((padCard j.card c.heights.length).getLast?.getD []) = true) :=
+  C02_trial_accepted_iff_allowed c hr b t j hj h3 (by unfold trialAllowed; simp [hph])
+
+/-- who may act at all: everybody while the competition is `started` or in a `jumpoff`, only an athlete in first place
+    once it is `won` (or `drawn`), nobody before the first height is set or after it is `finished` -/
+theorem C02_state_gate (c : Comp) (b : Nat) (t : Trial) (j : Jumper) (hj : c.find b = some j)
+    (h : (step c (.trial b t)).2 = .ok) :
+    c.phase = .started ∨ c.phase = .jumpoff ∨ ((c.phase = .won ∨ c.phase = .drawn) ∧ j.place = 1) := by
+  obtain ⟨j', hj', ha, _⟩ := C02_attempt_limit c b t h
+  rw [hj] at hj'; injection hj' with hj'; subst hj'
+  unfold trialAllowed at ha
+  cases hp : c.phase <;> simp_all
 
 /-! non-vacuity: a reachable drawn competition, a reachable jump-off, a refused call (kernel-evaluated) -/
 def runOps (ops : List Op) : Comp := ops.foldl (fun c op => (step c op).1) {}
